@@ -149,3 +149,220 @@ Theorem C12_associativity_refuted_across_kinds :
 Proof. exact merge_not_associative_across_kinds. Qed.
 Print Assumptions C12_associativity_refuted_across_kinds.
 
+
+(* ---- the remaining clauses (Proofs/MergeRest*.v), for a plain valid right-hand side:
+   NON-REMOVAL: a node of the left operand is a node of the result unless it lies strictly
+   beneath a node where the right operand holds a leaf (a scalar or an atomic value replaces
+   what was there), or beneath a change of kind;
+   FIELD-SET UNION: the field set of the result holds every path of the right operand's,
+   only paths of one of the operands', and every path of the left operand's except at or
+   beneath a node that the right operand replaces by a leaf or by a value of another kind
+   (the clause without "another kind" is refuted on a type that is scalar, list and map at
+   once, and holds verbatim when granular map types have no other member: maps_pure);
+   ORDER: the result keeps the relative order of the left operand's members, of the right
+   operand's members, and places new members as the property says (order_ok is the
+   executable checker the harness applies to the implementation's results). ---- *)
+From Coq Require Import List ZArith String Bool Arith Lia.
+From SMD Require Import Model.Value Model.Order Model.PathElem Model.PathSet Model.Schema Model.Walk
+  Model.Validate Model.FieldSet Model.Merge
+  Spec.PathsAsSets Spec.RefValid Spec.Resolve Spec.Agree Spec.Examples
+  Proofs.OrderLaws Proofs.PathSetLaws Proofs.SchemaOk Proofs.FieldSetLaws Proofs.ResolveLaws
+  Proofs.MergeLaws Proofs.MergeAgree Proofs.RemoveFrame Proofs.MergeKeeps Proofs.MergeThru Proofs.RefDiffBoth.
+From SMD Require Import Proofs.FieldSetShape Proofs.FieldSetPaths Proofs.NodeSet Proofs.ReconcileBase
+  Proofs.ReconcileLaws Proofs.ExtractBase Proofs.TreeFacts Proofs.MergeBase Proofs.MergeAssoc
+  Proofs.CompareLaws Proofs.RefDiffLaws
+  Proofs.MergeRestBase Proofs.MergeRest1 Proofs.MergeRest2a Proofs.MergeRest2 Proofs.MergeRest3.
+From SMD Require Import Proofs.MergeRest.
+Theorem C12_merge_removes_nothing :
+  forall (s : schema) (R : typeref -> Prop) (tr : typeref) (l r out : value) (p : path),
+         schema_ok s R ->
+         family_refs s R ->
+         lists_pure s R ->
+         R tr ->
+         wf_value l = true ->
+         wf_value r = true ->
+         conforms s tr true l = true ->
+         conforms s tr false r = true ->
+         plain r = true ->
+         merge s tr l r = Some (Some out) ->
+         wf_path p = true ->
+         present s tr l p = true ->
+         present s tr out p = true \/
+         (exists q : path,
+            is_prefix q p = true /\
+            q <> p /\
+            (exists (tq : typeref) (y : value),
+               resolve_path s tr r q = Some (RNode tq y) /\ leafy s tq y)).
+Proof. exact merge_removes_nothing. Qed.
+Print Assumptions C12_merge_removes_nothing.
+
+Theorem C12_merge_removes_nothing_but_beneath_kind_changes :
+  forall (s : schema) (R : typeref -> Prop) (tr : typeref) (l r out : value) (p : path),
+         schema_ok s R ->
+         family_refs s R ->
+         lists_pure s R ->
+         R tr ->
+         wf_value l = true ->
+         wf_value r = true ->
+         conforms s tr true l = true ->
+         conforms s tr false r = true ->
+         plain r = true ->
+         merge s tr l r = Some (Some out) ->
+         wf_path p = true ->
+         present s tr l p = true -> present s tr out p = true \/ beneath_kind_change s tr l r p.
+Proof. exact merge_removes_nothing_kind. Qed.
+Print Assumptions C12_merge_removes_nothing_but_beneath_kind_changes.
+
+Theorem C12_field_set_is_the_union :
+  forall (s : schema) (R : typeref -> Prop) (tr : typeref) (l r out : value)
+           (fl fr fo : pset) (p : path),
+         schema_ok s R ->
+         family_refs s R ->
+         lists_pure s R ->
+         R tr ->
+         wf_value l = true ->
+         wf_value r = true ->
+         conforms s tr false l = true ->
+         conforms s tr false r = true ->
+         plain l = true ->
+         plain r = true ->
+         merge s tr l r = Some (Some out) ->
+         to_field_set s tr l = Some fl ->
+         to_field_set s tr r = Some fr ->
+         to_field_set s tr out = Some fo ->
+         wf_path p = true ->
+         p <> nil ->
+         (ps_has p fr = true -> ps_has p fo = true) /\
+         (ps_has p fo = true -> ps_has p fl = true \/ ps_has p fr = true) /\
+         (ps_has p fl = true ->
+          ps_has p fo = true \/
+          (exists q : path,
+             is_prefix q p = true /\
+             (exists (tq : typeref) (y : value),
+                resolve_path s tr r q = Some (RNode tq y) /\
+                (leafy s tq y \/
+                 (exists (tl : typeref) (x : value),
+                    resolve_path s tr l q = Some (RNode tl x) /\ kind_differs x y = true))))).
+Proof. exact merge_field_set_union. Qed.
+Print Assumptions C12_field_set_is_the_union.
+
+Theorem C12_field_set_is_the_union_pure_maps :
+  forall (s : schema) (R : typeref -> Prop) (tr : typeref) (l r out : value)
+           (fl fr fo : pset) (p : path),
+         schema_ok s R ->
+         family_refs s R ->
+         lists_pure s R ->
+         maps_pure s R ->
+         R tr ->
+         wf_value l = true ->
+         wf_value r = true ->
+         conforms s tr false l = true ->
+         conforms s tr false r = true ->
+         plain l = true ->
+         plain r = true ->
+         merge s tr l r = Some (Some out) ->
+         to_field_set s tr l = Some fl ->
+         to_field_set s tr r = Some fr ->
+         to_field_set s tr out = Some fo ->
+         wf_path p = true ->
+         p <> nil ->
+         (ps_has p fr = true -> ps_has p fo = true) /\
+         (ps_has p fo = true -> ps_has p fl = true \/ ps_has p fr = true) /\
+         (ps_has p fl = true ->
+          ps_has p fo = true \/
+          (exists q : path,
+             is_prefix q p = true /\
+             (exists (tq : typeref) (y : value),
+                resolve_path s tr r q = Some (RNode tq y) /\ leafy s tq y))).
+Proof. exact merge_field_set_union_pure. Qed.
+Print Assumptions C12_field_set_is_the_union_pure_maps.
+
+Theorem C12_field_set_union_needs_the_kind_change_clause :
+  exists
+           (s : schema) (R : typeref -> Prop) (tr : typeref) (l r out : value) 
+         (fl fr fo : pset) (p : path),
+           schema_ok s R /\
+           family_refs s R /\
+           lists_pure s R /\
+           R tr /\
+           wf_value l = true /\
+           wf_value r = true /\
+           conforms s tr false l = true /\
+           conforms s tr false r = true /\
+           plain l = true /\
+           plain r = true /\
+           merge s tr l r = Some (Some out) /\
+           to_field_set s tr l = Some fl /\
+           to_field_set s tr r = Some fr /\
+           to_field_set s tr out = Some fo /\
+           wf_path p = true /\
+           p <> nil /\
+           ps_has p fl = true /\
+           ~
+           (ps_has p fo = true \/
+            (exists q : path,
+               is_prefix q p = true /\
+               (exists (tq : typeref) (y : value),
+                  resolve_path s tr r q = Some (RNode tq y) /\ leafy s tq y))).
+Proof. exact merge_field_set_union_given_clause_refuted. Qed.
+Print Assumptions C12_field_set_union_needs_the_kind_change_clause.
+
+Theorem C12_merge_order :
+  forall (s : schema) (R : typeref -> Prop) (tr : typeref) (l r out : value),
+         schema_ok s R ->
+         family_refs s R ->
+         R tr ->
+         wf_value l = true ->
+         wf_value r = true ->
+         conforms s tr false l = true ->
+         conforms s tr false r = true ->
+         plain l = true ->
+         plain r = true ->
+         merge s tr l r = Some (Some out) ->
+         order_ok (merge_fuel l out) s tr (Some l) (Some r) (Some out) = true.
+Proof. exact merge_order. Qed.
+Print Assumptions C12_merge_order.
+
+Theorem C12_rest_hypotheses_satisfiable :
+  schema_ok ex_schema ex_R /\
+         family_refs ex_schema ex_R /\
+         lists_pure ex_schema ex_R /\
+         maps_pure ex_schema ex_R /\
+         ex_R ex_rt /\
+         wf_value nv_L = true /\
+         wf_value nv_R = true /\
+         conforms ex_schema ex_rt false nv_L = true /\
+         conforms ex_schema ex_rt false nv_R = true /\
+         plain nv_L = true /\
+         plain nv_R = true /\ merge ex_schema ex_rt nv_L nv_R = Some (Some nv_out).
+Proof. exact merge_rest_hypotheses_satisfiable. Qed.
+Print Assumptions C12_rest_hypotheses_satisfiable.
+
+Theorem C12_rest_example :
+  pes_of_items ex_schema (ListT (ex_named "item") RAssociative ("name" :: nil))
+           match nv_out with
+           | VMap ((_, VList xs) :: nil) => xs
+           | VMap ((_, VList xs) :: _ :: _) => nil
+           | _ => nil
+           end =
+         PEKey (("name", VStr "a") :: nil)
+         :: PEKey (("name", VStr "c") :: nil)
+            :: PEKey (("name", VStr "d") :: nil)
+               :: PEKey (("name", VStr "x") :: nil) :: PEKey (("name", VStr "b") :: nil) :: nil /\
+         present ex_schema ex_rt nv_out
+           (PEField "items" :: PEKey (("name", VStr "c") :: nil) :: PEField "vv" :: nil) = true /\
+         match to_field_set ex_schema ex_rt nv_L with
+         | Some fl =>
+             match to_field_set ex_schema ex_rt nv_R with
+             | Some fr =>
+                 match to_field_set ex_schema ex_rt nv_out with
+                 | Some fo => psame (ps_elems fo) (ps_elems fl ++ ps_elems fr) = true
+                 | None => False
+                 end
+             | None => False
+             end
+         | None => False
+         end.
+Proof. exact merge_rest_instance_computed. Qed.
+Print Assumptions C12_rest_example.
+
